@@ -21,10 +21,14 @@
 (* Mode "STEP": a dumped tree followed by the `down` / `up` events of the real search (every child    *)
 (*   search): each returned value must be sound for its window - exact inside the window, a true bound    *)
 (*   outside it - with respect to LookVal / Quiesce of the node searched.                                *)
+(* Mode "PROBE": the transposition-table probes of cached searches: each `probe` event (entry found,   *)
+(*   remaining depth and window of the node) is followed by what the node did - `probed` with the window *)
+(*   it went on with, or the parent's `up` when it returned at once - and that must be the outcome of    *)
+(*   ProbeOutcome (TTProbe.tla), the probe rule of the design model Search.tla.                         *)
 (* Mode "C16": results of repeated searches: (best, score, nodes) must be  *)
 (*   a function of (case, depth).                                          *)
 (***************************************************************************)
-EXTENDS Integers, Sequences, FiniteSets, TLC, Json, IOUtils, FiniteSetsExt
+EXTENDS Integers, Sequences, FiniteSets, TLC, Json, IOUtils, FiniteSetsExt, TTProbe
 
 CONSTANT Mode
 Rec == ndJsonDeserialize(IOEnv.TRACE)
@@ -245,6 +249,27 @@ SEnd ==
   /\ Rec[l].ev = "endsteps"
   /\ l' = l + 1 /\ UNCHANGED <<cur, aborted, widx, ref, refOf, judged, rejected, stk, hd>>
 
+\* ---- PROBE mode: psearch headers, probe events each followed by its outcome
+PSearch ==
+  /\ Rec[l].ev = "psearch"
+  /\ IF Rec[l].panicked THEN Reject({"panicked"})
+     ELSE /\ l' = l + 1 /\ UNCHANGED <<cur, aborted, widx, ref, refOf, judged, rejected, stk, hd>>
+ProbeFails(r, nx) ==
+  LET o == ProbeOutcome([depth |-> r.edepth, bound |-> r.ebound, score |-> r.escore], r.depth, r.alpha, r.beta) IN
+  IF o.ret
+  THEN (IF nx.ev = "up" /\ nx.ply = r.ply THEN (IF nx.score = Neg(o.v) THEN {} ELSE {"probe-returned-another-value"})
+        ELSE {"probe-entry-not-used"})
+  ELSE (IF nx.ev = "probed" /\ nx.ply = r.ply
+        THEN (IF nx.alpha = o.a /\ nx.beta = o.b THEN {} ELSE {"probe-window-differs-from-the-rule"})
+        ELSE {"probe-returned-from-an-entry-that-does-not-allow-it"})
+PProbe ==
+  /\ Rec[l].ev = "probe"
+  /\ LET nx == IF l + 1 <= N THEN Rec[l + 1] ELSE [ev |-> "none", ply |-> -1]
+         f == ProbeFails(Rec[l], nx) IN
+     IF f # {} THEN Reject(f)
+     ELSE /\ judged' = judged + 1 /\ l' = l + 2
+          /\ UNCHANGED <<cur, aborted, widx, ref, refOf, rejected, stk, hd>>
+
 TDone ==
   /\ l = N + 1
   /\ PrintT(<<"ACCEPT", N, judged>>)
@@ -256,9 +281,10 @@ Init ==
   /\ Stateless
 
 Next ==
-  /\ Mode \in {"C13", "STEP"} /\ ~rejected
+  /\ Mode \in {"C13", "STEP", "PROBE"} /\ ~rejected
   /\ \/ (l <= N /\ Mode = "C13" /\ (TSearch \/ TWrite \/ TAbort \/ TEnd))
      \/ (l <= N /\ Mode = "STEP" /\ (STree \/ SDown \/ SUp \/ SEnd))
+     \/ (l <= N /\ Mode = "PROBE" /\ (PSearch \/ PProbe))
      \/ TDone
 
 Spec == Init /\ [][Next]_svars
